@@ -141,6 +141,20 @@ def try_branch(eng, st, fr, args, fn, site):
 def from_residual(eng, st, fr, args, fn, site):
     v = args[0]
     if v[0] == 'agg' and v[2] == 'Err':
+        # `?` converts the error with From: identity when source and target types coincide,
+        # a workspace From impl when there is one, an opaque conversion otherwise
+        targs = ((fn or {}).get('resolved') or {}).get('targs') or []
+        if len(targs) >= 3:
+            crate = fr.body.crate
+            f_ty, e_ty = targs[-2], targs[-1]
+            if crate.types[f_ty]['s'] == crate.types[e_ty]['s']:
+                return ('agg', 'std::result::Result', 'Err', (v[3][0],))
+            tb = eng.find_from_impl(crate, e_ty, f_ty)
+            if tb is not None:
+                from .psi import FnInfo
+                alts = eng.apply_fn(st, fr, ('fn', FnInfo({'path': tb.path, 'resolved': {'path': tb.path}})), [v[3][0]])
+                if alts:
+                    return [(('agg', 'std::result::Result', 'Err', (x,)), c) for x, c in alts]
         return ('agg', 'std::result::Result', 'Err', (T('conv', v[3][0]),))
     if v[0] == 'agg' and v[2] == 'None':
         return ('agg', 'std::option::Option', 'None', ())
@@ -166,7 +180,86 @@ def discr_test(variant_index):
     return f
 
 
+RES = 'std::result::Result'
+OPT = 'std::option::Option'
+
+
+def _variants(v, family):
+    """[(variant, payload or None, conds)] for a Result/Option value"""
+    a, b = ('Ok', 'Err') if family == RES else ('Some', 'None')
+    if v[0] == 'agg' and v[2] in (a, b):
+        return [(v[2], v[3][0] if v[3] else None, [])]
+    d = T('discr', v)
+    ia, ib = (0, 1) if family == RES else (1, 0)
+    return [(a, payload(v, a), [(d, '==', ia)]), (b, payload(v, b) if family == RES else None, [(d, '==', ib)])]
+
+
+def hof(family, on, rebuild):
+    """higher-order helper: apply the callback to the payload of variant `on`, pass the other through.
+    rebuild(variant, new_payload) -> value"""
+    def f(eng, st, fr, args, fn, site):
+        out = []
+        for var, pay, conds in _variants(args[0], family):
+            if var == on:
+                alts = eng.apply_fn(st, fr, args[1], [pay] if pay is not None else [])
+                if alts is None:
+                    return None
+                for v, c2 in alts:
+                    out.append((rebuild(var, v), conds + c2))
+            else:
+                out.append((rebuild(var, None, keep=pay), conds))
+        return out if len(out) > 1 else out[0][0] if out and not out[0][1] else out
+    return f
+
+
+def _rb_map_err(var, v, keep=None):
+    return ('agg', RES, 'Err', (v,)) if var == 'Err' and keep is None and v is not None else ('agg', RES, var, (keep,))
+
+
+def _rb_map_res(var, v, keep=None):
+    return ('agg', RES, 'Ok', (v,)) if var == 'Ok' and keep is None and v is not None else ('agg', RES, var, (keep,))
+
+
+def _rb_map_opt(var, v, keep=None):
+    if var == 'Some' and keep is None and v is not None:
+        return ('agg', OPT, 'Some', (v,))
+    return ('agg', OPT, var, (keep,) if keep is not None else ())
+
+
+def _rb_ok_or_else(var, v, keep=None):
+    if var == 'None':
+        return ('agg', RES, 'Err', (v,))
+    return ('agg', RES, 'Ok', (keep,))
+
+
+def ok_or(eng, st, fr, args, fn, site):
+    out = []
+    for var, pay, conds in _variants(args[0], OPT):
+        out.append((('agg', RES, 'Ok', (pay,)) if var == 'Some' else ('agg', RES, 'Err', (args[1],)), conds))
+    return out if len(out) > 1 else out[0][0]
+
+
+def res_ok(eng, st, fr, args, fn, site):
+    out = []
+    for var, pay, conds in _variants(args[0], RES):
+        out.append((('agg', OPT, 'Some', (pay,)) if var == 'Ok' else ('agg', OPT, 'None', ()), conds))
+    return out if len(out) > 1 else out[0][0]
+
+
+def opt_as_ref(eng, st, fr, args, fn, site):
+    """Option<T>::as_ref(&self) -> Option<&T>: same discriminant; the payload becomes a reference,
+    which the term language does not distinguish from the value it points to"""
+    return deref(eng, st, args[0])
+
+
 SUMMARIES = {
+    'std::result::Result::<T, E>::map_err': hof(RES, 'Err', _rb_map_err),
+    'std::result::Result::<T, E>::map': hof(RES, 'Ok', _rb_map_res),
+    'std::option::Option::<T>::map': hof(OPT, 'Some', _rb_map_opt),
+    'std::option::Option::<T>::ok_or_else': hof(OPT, 'None', _rb_ok_or_else),
+    'std::option::Option::<T>::ok_or': ok_or,
+    'std::result::Result::<T, E>::ok': res_ok,
+    'std::option::Option::<T>::as_ref': opt_as_ref,
     'std::option::Option::<T>::is_some': discr_test(1),
     'std::option::Option::<T>::is_none': discr_test(0),
     'std::result::Result::<T, E>::is_ok': discr_test(0),
